@@ -107,8 +107,9 @@ CLAIMS['C02'] = {
              'exactly the block (splitting a whole huge frame on a partial free) and a refused free changes nothing; LLFree::get on every path '
              '(own reservation with sync, search_and_reserve/search_best, reserve_or_steal, steal_global, steal/demote of other slots) returns only '
              'blocks that were entirely free, the target if given, allocates exactly them, and every failure is Memory with the allocation state '
-             'unchanged; drains and tree changes never change the allocation state. Remaining assumption, carried by the correspondence: the lower '
-             'initialisation programs (free_all/reserve_all/recover) establish the lower invariant for every frame count.'),
+             'unchanged; drains and tree changes never change the allocation state; new_then_history: free-all / allocate-all construction (every frame '
+             'count, arbitrary buffer contents) establishes the invariant, so this covers every call of every history of a constructed allocator. '
+             'For Init::Recover/None the invariant of the handed-over state is an assumption (C05/C07).'),
     'note': TB + ' Upper-level theorems hold for configurations satisfying CfgOk (class ids < 8, ordered policy, tree size < 2^19: every configuration of the repository; derived from elementary checks by CfgOk.of_checks); they depend on the C23 theorem (bv_decide axioms) through the lower search.',
     'technique': 'Lean 4 refinement proof of the whole sequential allocator (Hoare-style program logic over the model, upper invariant with ghost state, induction over call histories) + byte-level sequential differential with shadow ownership model',
 }
@@ -141,13 +142,16 @@ CLAIMS['C05'] = {
     'technique': 'Lean 4 theorems about the recovery decision logic + crash-point oracle inside the trace co-simulation + sequential differential of recover',
 }
 CLAIMS['C06'] = {
-    'text': ('Theorems trees_new_establishes / free_all_sum / free_all_entry_le / free_all_full_iff / reserve_all_split / tiny_lower_inv: Trees::new over a lower '
+    'text': ('Theorems free_all_establishes / alloc_all_establishes / lower_free_all_inv / lower_reserve_all_inv: for EVERY frame count (incl. 0) and geometry, from '
+             'arbitrary buffer contents, the programs Lower::free_all / Lower::reserve_all (store loops, Bitfield::fill, Bitfield::set on the partial bitfield) '
+             'followed by Trees::new establish the lower and upper invariants with nothing hidden and the allocation state "allocated iff at or beyond the '
+             'managed count" resp. "everything allocated, huge frames inside the range as whole huge frames (freeable once at huge order), the rest freeable '
+             'at base order"; with C02/C04 this is the property. Also trees_new_establishes / free_all_sum / free_all_entry_le / free_all_full_iff / reserve_all_split / tiny_lower_inv: Trees::new over a lower '
              'allocator satisfying its invariant and empty slots establishes the upper invariant with every tree counter exactly the free frames of its '
              'tree (so a fresh allocator reports exactly the free managed frames and, by C02, lets exactly free frames be allocated; frames at or beyond '
              'the managed count are allocated by the invariant); for every frame count the counters free_all writes add up to the managed frames, never '
-             'exceed a huge frame, allocate-all marks exactly the huge frames inside the range.' + PART + 'that the programs free_all/reserve_all '
-             'write these values and the matching bitfields (establishing the lower invariant) is carried by the byte-level correspondence over '
-             'boundary-dense frame counts in 5 geometries with full exhaust/free cycles.'),
+             'exceed a huge frame, allocate-all marks exactly the huge frames inside the range. The model is tied to the source by the byte-level '
+             'correspondence over boundary-dense frame counts in 5 geometries with full exhaust/free cycles.'),
     'note': TB + ' Upper-level theorems hold for configurations satisfying CfgOk (class ids < 8, ordered policy, tree size < 2^19: every configuration of the repository; derived from elementary checks by CfgOk.of_checks); they depend on the C23 theorem (bv_decide axioms) through the lower search.',
     'technique': 'Lean 4 theorems (Trees::new loop, arithmetic for all frame counts) + init-cycle differential over boundary-dense frame counts',
 }
@@ -156,8 +160,9 @@ CLAIMS['C09'] = {
              'empty slots, Trees::new followed by ANY list of valid-parameter calls (get of any order/target/slot, put, drain, change_tree naming any '
              'tree, stats) runs to completion in the sequential semantics with outcome ok: every panic site of lower.rs, bitfield.rs, trees.rs, '
              'local.rs and llfree.rs on these paths (asserts, unwrap/expect, slice indexing, checked arithmetic, bit-field setter bounds) is an '
-             'explicit panic outcome of the model and is unreachable.' + PART + 'the lower initialisation programs for every frame count (incl. 0), '
-             'tree_stats/validate/stats_at(order 0)/is_free are carried by the correspondence (every call under catch_unwind in an overflow-checked build).'),
+             'explicit panic outcome of the model and is unreachable; new_then_history_never_panics includes the free-all / allocate-all construction for '
+             'every frame count incl. 0.' + PART + 'Init::Recover, tree_stats/validate/stats_at(order 0)/is_free are carried by the correspondence '
+             '(every call under catch_unwind in an overflow-checked build).'),
     'note': TB + ' Upper-level theorems hold for configurations satisfying CfgOk (class ids < 8, ordered policy, tree size < 2^19: every configuration of the repository; derived from elementary checks by CfgOk.of_checks); they depend on the C23 theorem (bv_decide axioms) through the lower search.',
     'technique': 'Lean 4 total-correctness proof over all call histories (no-panic = Outcome.ok in the sequential semantics) + sequential differential with panic capture',
 }
